@@ -1324,6 +1324,11 @@ func (pc ParseContext) compilePackage(ctx context.Context, b ast.Branch, c ast.C
 				return nil, fmt.Errorf("import path can not be pointing outside of the script's module directory: %s", name)
 			}
 			filePath := strings.Trim(name, "/")
+			if filePath == "" || filePath == "." {
+				// The path names the source directory (or the module root) itself. Appending the
+				// default extension to it would name a file next to that directory, outside of it.
+				return nil, fmt.Errorf("local import %q does not name a file", scanner.String())
+			}
 			if pc.SourceDir == "" {
 				return nil, fmt.Errorf("local import %q invalid; no local context", name)
 			}
